@@ -13,11 +13,13 @@
 //     qfrc_inverse[nv] qfrc_constraint_inv[nv] efc_force[nefc] efc_force_inv[nefc]
 //     disc nefc_d a_d[nv] qfrc_inverse_d[nv] efc_force_inv_d[nefc_d] fwdinv0 fwdinv1
 //     D[nefc] R[nefc] floss[nefc] jar[nefc] type[nefc] id[nefc] ncon {dim mu fr[5] adr}[ncon]      (jar = J qacc - aref)
+//     tbias                                                                                      (max |mj_tendonBias|)
 //   xfrc_q is computed here from mj_jac at the body centre of mass (not by mj_xfrcAccumulate).
 #include <stdio.h>
 #include <stdlib.h>
 #include <string.h>
 #include "mjgen.h"
+#include "engine/engine_core_smooth.h"   // mj_tendonBias (to report whether the tendon-armature bias is non-zero)
 
 static void pv(const mjtNum* v, int n) { for (int i = 0; i < n; i++) printf(" %a", v[i]); }
 
@@ -70,8 +72,31 @@ int main(int argc, char** argv) {
                     MJG_TENDON | MJG_MULTITREE | MJG_SPRING | MJG_ACTUATOR | MJG_GRAVCOMP;
     if (seed % 4 == 2) feat |= MJG_ACTDYN;
     int nb = 1 + seed % 5;
-    mjModel* m = mjg_model(seed, feat, nb, NULL);
-    if (!m) { printf("X %d compile\n", seed); continue; }
+    // every second seed: a SPATIAL tendon with armature through sites of the moving bodies (configuration-dependent Jacobian, so the
+    // tendon-armature bias ten_J' * armature * (ten_Jdot . qvel) is non-zero at non-zero velocity); every fourth also an actuator with
+    // armature on that tendon
+    int spatial = (seed % 2 == 0);
+    if (spatial) feat |= MJG_SITE;
+    mjSpec* spec = mjg_spec(seed, feat, nb);
+    if (spatial) {
+      mjg_rng rs = {(uint64_t)seed * 0x9E3779B97F4A7C15ULL + 77};
+      mjsBody* world = mjs_findBody(spec, "world");
+      mjsSite* sw = mjs_addSite(world, NULL); mjs_setName(sw->element, "c09_sw");
+      sw->pos[0] = mjg_range(&rs, -0.5, 0.5); sw->pos[1] = mjg_range(&rs, -0.5, 0.5); sw->pos[2] = mjg_range(&rs, 0.8, 1.4);
+      mjsTendon* t = mjs_addTendon(spec, NULL); mjs_setName(t->element, "c09_spatial");
+      mjs_wrapSite(t, "c09_sw"); mjs_wrapSite(t, "s0");
+      if (nb > 1) { char nm[16]; snprintf(nm, sizeof(nm), "s%d", nb - 1); mjs_wrapSite(t, nm); }
+      t->armature = mjg_range(&rs, 0.05, 1.0);
+      if (mjg_chance(&rs, 0.5)) { t->stiffness[0] = mjg_range(&rs, 0, 5); t->damping[0] = mjg_range(&rs, 0, 0.5); }
+      if (seed % 4 == 0) {
+        mjsActuator* a = mjs_addActuator(spec, NULL); mjs_setName(a->element, "c09_ta");
+        mjs_setToMotor(a); a->trntype = mjTRN_TENDON; mjs_setString(a->target, "c09_spatial");
+        a->gear[0] = mjg_range(&rs, 0.5, 2); a->armature = mjg_range(&rs, 0.05, 0.5);
+      }
+    }
+    mjModel* m = mj_compile(spec, NULL);
+    if (!m) { printf("X %d compile %s\n", seed, mjs_getError(spec)); mj_deleteSpec(spec); continue; }
+    mj_deleteSpec(spec);
     mjg_rng r = {(uint64_t)seed * 2654435761ULL + 909};
     static const int integ[3] = {mjINT_EULER, mjINT_IMPLICIT, mjINT_IMPLICITFAST};
     m->opt.integrator = integ[seed % 3];
@@ -165,6 +190,14 @@ int main(int argc, char** argv) {
             printf(" %d %a", con->dim, con->mu); pv(con->friction, 5); printf(" %d", con->efc_address);
           }
           free(jar);
+        }
+        // G: size of the tendon-armature bias at this state (forward adds it to qfrc_bias, inverse to qfrc_inverse)
+        {
+          mjtNum* tb = calloc(nv + 1, sizeof(mjtNum));
+          mj_tendonBias(m, w, tb);
+          mjtNum mxb = 0; for (int i = 0; i < nv; i++) mxb = mjMAX(mxb, mju_abs(tb[i]));
+          printf(" %a", mxb);
+          free(tb);
         }
         printf("\n");
         done++;
